@@ -236,9 +236,10 @@ def sortDesc : List (FieldDesc × Val) → List (FieldDesc × Val)
   | [] => []
   | x :: xs => insertDesc x (sortDesc xs)
 
-/-- oneof groups present in a message, ascending (declaration index). -/
+/-- oneof groups present in a message, ascending declaration index (`message.Oneofs` order). -/
 def groupsOf (fs : List FieldDesc) : List Nat :=
-  (fs.filterMap FieldDesc.group?).foldl (fun acc g => if acc.contains g then acc else acc ++ [g]) []
+  let gs := fs.filterMap FieldDesc.group?
+  (List.range (gs.foldl max 0 + 1)).filter (fun g => gs.contains g)
 
 /-- The write sequence of the marshal closure (each item is one field's chunk). -/
 def implWriteSeq (o : MOpts) (childEnc : Nat → Val → Res Bytes) (fvs : List (FieldDesc × Val)) (unknown : Bytes) :
